@@ -20,12 +20,12 @@ let byte_tbl = Array.init 256 n_of_int
 let bytes_of_string (s : string) : n list =
   let r = ref [] in
   for i = String.length s - 1 downto 0 do r := byte_tbl.(Char.code s.[i]) :: !r done; !r
-let hexval c = match c with
+let hex_digit c = match c with
   | '0'..'9' -> Char.code c - 48 | 'a'..'f' -> Char.code c - 87 | 'A'..'F' -> Char.code c - 55
   | _ -> failwith "hex"
 let string_of_hex (h : string) : string =
   if h = "-" then "" else
-  String.init (String.length h / 2) (fun i -> Char.chr (hexval h.[2*i] * 16 + hexval h.[2*i+1]))
+  String.init (String.length h / 2) (fun i -> Char.chr (hex_digit h.[2*i] * 16 + hex_digit h.[2*i+1]))
 let bytes_of_hex h = bytes_of_string (string_of_hex h)
 let hex_of_bytes (l : n list) : string =
   if l = [] then "-" else begin
